@@ -263,6 +263,8 @@ def check_point_compared_in_full(prog, res):
                 if len(a) != 3:
                     raise AnalysisBroken("R04.6: comparison %s in %s is not of the form f(a, b, length)" % (c, fn))
                 k = _words(a[2], c.startswith("mem"))
+                if k is None and re.match(r"^\(*\d+\)*$", a[2].replace(" ", "")):
+                    continue     # a comparison over a constant number of octets / words is not a point comparison
                 if k is None:
                     raise AnalysisBroken("R04.6: the length of %s in %s is not a multiple of the field length that this rule reads" % (c, fn))
                 parsed.append((a[0], a[1], k, c))
